@@ -144,7 +144,7 @@ fn hist_2d_matrix<const K: usize, const K2: usize>(layout: u8) {
     kani::cover!(tally[1][1] == K + 1, "W: every point in cell (1,1)");
 }
 
-//@ prop=C11,C20:thorough tier=quick mem=10 timeout=3000 inst="Histogram<u8> over a fixed 3x2-bin grid; observations = rows of a 2x2 F-order matrix, then one single insert" bounds="2 symbolic rows + 1 symbolic point; unwind 8"
+//@ prop=C11,C20 tier=thorough mem=10 timeout=5400 inst="Histogram<u8> over a fixed 3x2-bin grid; observations = rows of a 2x2 F-order matrix, then one single insert" bounds="2 symbolic rows + 1 symbolic point; unwind 8"
 #[kani::proof]
 #[kani::unwind(8)]
 fn c11_hist_2d_matrix_k2() {
@@ -156,6 +156,34 @@ fn c11_hist_2d_matrix_k2() {
 #[kani::unwind(8)]
 fn c11_hist_2d_matrix_k3() {
     hist_2d_matrix::<3, 6>(2);
+}
+
+/// Cheapest 2-D matrix form (quick tier): a fixed 2 x 1-bin grid, the rows of a 2x2 F-order matrix
+/// through `histogram()`; cell (i0, 0) must count the rows whose x lies in x-bin i0 and whose y lies
+/// in the single y-bin (so rows, not memory chunks, are the observations).
+//@ prop=C11,C20:thorough tier=quick mem=8 timeout=1800 inst="Histogram<u8> over a fixed 2x1-bin grid; observations = rows of a 2x2 F-order matrix" bounds="2 symbolic rows; unwind 8"
+#[kani::proof]
+#[kani::unwind(8)]
+fn c11_hist_2d_matrix_small() {
+    const FX: [u8; 3] = [10, 20, 30];
+    const FY: [u8; 2] = [5, 15];
+    let pts: [u8; 4] = kani::any(); // row-major 2 x 2
+    let parent = parent2(&pts, 2, 2, 1, 0u8);
+    let m = view2(&parent, 1);
+    let grid = Grid::from(vec![Bins::new(Edges::from(FX.to_vec())), Bins::new(Edges::from(FY.to_vec()))]);
+    let h = m.histogram(grid);
+    let mut tally = [0usize; 2];
+    let mut k = 0;
+    while k < 2 {
+        if let (Some(i0), Some(_)) = (bin_fixed(&FX, pts[2 * k]), bin_fixed(&FY, pts[2 * k + 1])) {
+            tally[i0] += 1;
+        }
+        k += 1;
+    }
+    let counts = h.counts();
+    assert!(counts.shape().len() == 2 && counts.shape()[0] == 2 && counts.shape()[1] == 1, "counts has the grid's shape");
+    assert!(counts[[0, 0]] == tally[0] && counts[[1, 0]] == tally[1], "cell (i0, 0) counts the ROWS falling in x-bin i0 and the y-bin");
+    kani::cover!(pts[0] == 12 && pts[1] == 7 && pts[2] == 25 && pts[3] == 200, "W: one row inside, one rejected on y");
 }
 
 /// 2-D grid from SYMBOLIC edges (3 and 2 input edges), one symbolic point.
